@@ -16,11 +16,15 @@ type shape struct {
 	repeatedNodeVar, relationshipMatch, optionalAfterWith                                   bool
 	leadingUnwind, shortest, optionalMatch, withScalarAlias                                 bool
 	matchClauses                                                                            int
+	relFnOnNonRel                                                                           bool
 	readingClauses                                                                          int
 }
 
 func shapeOf(q *cypher.RegularQuery) shape {
 	var s shape
+	var relFnCalls []*cypher.FunctionInvocation
+	relVars := map[string]bool{}
+	pathVars := map[string]bool{}
 	_ = walk.Cypher(q, walk.NewSimpleVisitor[cypher.SyntaxNode](func(node cypher.SyntaxNode, _ walk.VisitorHandler) {
 		switch t := node.(type) {
 		case *cypher.Unwind:
@@ -63,6 +67,9 @@ func shapeOf(q *cypher.RegularQuery) shape {
 		case *cypher.PatternPredicate:
 			s.patternPredicate = true
 		case *cypher.PatternPart:
+			if t.Variable != nil {
+				pathVars[t.Variable.Symbol] = true
+			}
 			if t.ShortestPathPattern || t.AllShortestPathsPattern {
 				s.shortest = true
 			}
@@ -76,6 +83,9 @@ func shapeOf(q *cypher.RegularQuery) shape {
 				}
 			}
 		case *cypher.RelationshipPattern:
+			if t.Variable != nil {
+				relVars[t.Variable.Symbol] = true
+			}
 			if t.Range != nil {
 				s.varLen = true
 				if t.Variable != nil {
@@ -86,12 +96,33 @@ func shapeOf(q *cypher.RegularQuery) shape {
 			if strings.EqualFold(t.Name, "labels") {
 				s.labelsFn = true
 			}
+			switch strings.ToLower(t.Name) {
+			case "type", "startnode", "endnode", "labels", "id":
+				relFnCalls = append(relFnCalls, t)
+			}
 		case *cypher.With:
 			s.with = true
 		case *cypher.ReadingClause:
 			s.readingClauses++
 		}
 	}))
+	// type() / startNode() / endNode() of something that is not a relationship, labels() of a relationship or path, id() of a path
+	for _, f := range relFnCalls {
+		for _, a := range f.Arguments {
+			v, ok := a.(*cypher.Variable)
+			if !ok {
+				continue
+			}
+			switch strings.ToLower(f.Name) {
+			case "type", "startnode", "endnode":
+				s.relFnOnNonRel = s.relFnOnNonRel || !relVars[v.Symbol]
+			case "labels":
+				s.relFnOnNonRel = s.relFnOnNonRel || relVars[v.Symbol] || pathVars[v.Symbol]
+			case "id":
+				s.relFnOnNonRel = s.relFnOnNonRel || pathVars[v.Symbol]
+			}
+		}
+	}
 	// is the very first clause of the query an UNWIND?
 	if q != nil && q.SingleQuery != nil {
 		var first []*cypher.ReadingClause
@@ -112,6 +143,8 @@ func classOf(issue string, s shape) string {
 	switch {
 	case issue == "field-of-non-composite" && s.varLenNamedRel:
 		return "field-of-array:variable-length-relationship-variable-used-as-one-relationship"
+	case s.relFnOnNonRel && (issue == "unknown-column" || issue == "unknown-composite-field" || issue == "unknown-relation-qualifier"):
+		return issue + ":entity-function-applied-to-an-argument-of-another-kind"
 	case s.multiDelete:
 		return issue + ":delete-with-several-targets"
 	case s.leadingUnwind && s.varLen:
